@@ -122,3 +122,69 @@ pub fn dimension_table(ctx: &Context) -> Vec<String> {
 pub fn name_counter(ctx: &Context) -> u64 {
     ctx.typechecker.verif_name_counter()
 }
+
+fn unit_dimension(ctx: &Context, unit: &crate::unit::Unit) -> Option<DType> {
+    use crate::interpreter::Interpreter;
+    let reg = &ctx.interpreter.get_unit_registry().inner;
+    let mut acc = DType::scalar();
+    for f in unit.iter() {
+        // the unit's definition in base units, then each base unit's declared dimension
+        let (base_repr, _) = reg.get_base_representation_for_name(&f.unit_id.name).ok()?;
+        for bf in base_repr.iter() {
+            let (_, meta) = reg.get_base_representation_for_name(&bf.0).ok()?;
+            let Type::Dimension(d) = meta.type_ else {
+                return None;
+            };
+            acc = acc.multiply(&d.power(bf.1 * f.exponent));
+        }
+    }
+    Some(acc)
+}
+
+fn value_text(ctx: &Context, v: &crate::value::Value) -> String {
+    use crate::value::Value;
+    match v {
+        Value::Quantity(q) => {
+            let fs: Vec<String> = q
+                .unit()
+                .iter()
+                .map(|f| {
+                    format!(
+                        "{}:{}:{}/{}",
+                        f.unit_id.name,
+                        f.prefix.as_string_short(),
+                        f.exponent.numer(),
+                        f.exponent.denom()
+                    )
+                })
+                .collect();
+            let dim = unit_dimension(ctx, q.unit())
+                .map(|d| dtype_text(&d))
+                .unwrap_or_else(|| "?".into());
+            format!("q|{}|{}", fs.join(","), dim)
+        }
+        Value::Boolean(_) => "b".into(),
+        Value::String(_) => "s".into(),
+        Value::DateTime(_) => "t".into(),
+        Value::FunctionReference(_) => "f".into(),
+        Value::FormatSpecifiers(_) => "x".into(),
+        Value::StructInstance(info, vs) => format!(
+            "r|{}|{}",
+            info.name,
+            vs.iter().map(|v| value_text(ctx, v)).collect::<Vec<_>>().join("~")
+        ),
+        Value::List(l) => format!(
+            "l|{}",
+            l.iter().map(|v| value_text(ctx, v)).collect::<Vec<_>>().join("~")
+        ),
+    }
+}
+
+/// The raw, unsimplified value bound to a global name: for a quantity its unit as stored
+/// (`name:prefix:num/den,…`) and the physical dimension of that unit, computed from the unit
+/// definitions and the declared dimension of each base unit (`D[b…]`).
+pub fn raw_global_text(ctx: &Context, name: &str) -> Option<String> {
+    ctx.interpreter
+        .verif_global_value(name)
+        .map(|v| value_text(ctx, v))
+}
